@@ -5,6 +5,8 @@ props=[json.loads(l) for l in open('/verif/properties.jsonl')]
 ENV="GOFLAGS=-mod=mod GOPROXY=off GOSUMDB=off GOTOOLCHAIN=local"
 SIM="the scripted in-memory connection, reference broker (independent MQTT 3.1.1 codec) and instrumented Persistence of /verif/harness/sim model network, broker and store faithfully; faults are realistic (see DESIGN.md section 3 conventions)"
 checks={
+ "C13":("exploration","runtime monitoring: reference classifier (first offending packet over a model of outstanding transfers) vs the client's behaviour on directed, single-field-mutated, truncated and random inputs, as handshake reply and as stream; deadline-discipline monitor in the connection; allocation counter; child-process panic monitor",
+        "Held on the inputs generated: no panic; every listed protocol violation surfaced as a ReadSlices error, the connection was closed by the client and the next ReadSlices dialled again; packets before the offence took effect exactly as the reference says; no transfer completed and no record was removed without its in-order acknowledgement bytes in the input; every Read blocking inside a packet had a deadline armed; allocation stayed below the largest announced packet + 8 MiB. Inputs are generated (47 directed offences, all single-field mutations of generated streams, all truncations, PRNG soup, all 256 return codes), not the set of all byte strings; coverage-guided fuzzing was cut.","3/C13"),
  "C09":("exploration","runtime monitoring: reference validity predicate + strict independent decode of every emitted packet, over a boundary-list x PRNG argument and Config generator; trace monitors for 'no byte, no store operation, no capacity consumed' on denial",
         "Held on the arguments generated: every valid request was accepted and its packet decoded strictly to the requested fields and equalled the reference encoding; every invalid one was refused with IsDeny (constructor error for Config) without a byte written, a Persistence operation or a slot consumed (probed at a maximum of one in-flight transfer). Input classes are boundary lists, so coverage of the string/size space is by class, not exhaustive.","3/C09"),
  "C15":("exploration","runtime monitoring: independent re-encoding at the Save boundary (online, concurrent workload under the race detector), exhaustive single-byte damage and truncation through read-only exports, end-to-end damage of each record kind before AdoptSession",
